@@ -164,6 +164,17 @@ def run(pid, tier, seed):
                     fo.write(ln)
             scripts.append({"id": "stress-0", "stress": "growth/conc", "seed": seed})
             scripts.append({"id": "conc-0", "stress": "conc", "seed": seed})
+        if pid == "C09":
+            # concurrent round-robin BINDs and the 2^31 boundary of the cursor (stress events judged by C09_s in PoolTrace)
+            rrp = scratch.path("rr-trace.ndjson")
+            rcs, outs = vlib.run_test_binary(binp, "TestVerifStressRR", {"VERIF_OUT": rrp, "VERIF_SEED": str(seed),
+                                                                         "VERIF_N": "12" if tier == "quick" else "200"}, timeout=3000)
+            if "VERIF-STRESS-RR" not in outs:
+                raise Infra("round-robin stress driver failed:\n" + outs[-2500:])
+            with open(tr, "a") as fo:
+                for ln in open(rrp):
+                    fo.write(ln)
+            scripts.append({"id": "rr-0", "stress": "rr", "seed": seed})
         verdict = pool.validate_trace(scratch, tr, "tv")
         # --- concurrent sections: TLC-enumerated gate schedules (specs/LockSched.tla) replayed on the real code, judged through
         # their linearizations by the same clauses (tools/conc.py)
@@ -285,6 +296,8 @@ def run(pid, tier, seed):
                 continue
             seen_sig.add(sig)
             sc = by_sid.get(b["sid"])
+            if sc is None and b["sid"].split("-")[0] in ("rr", "stress", "conc"):
+                sc = {"id": b["sid"], "stress": {"rr": "rr", "stress": "growth", "conc": "conc"}[b["sid"].split("-")[0]], "seed": seed}
             evs = [l for l in open(tr) if ('"sid":"%s"' % b["sid"]) in l]
             d = vlib.save_replay(pid, "%s-%d" % (b["sid"], seed), {
                 "script.ndjson": json.dumps(sc) + "\n",
